@@ -291,23 +291,20 @@ DWORD WINAPI reb_server_start(void* args){
         char* request = fgets(buf, BUFSIZE, stream);
         if (!request){
             reb_server_cerror(stream, "Did not get request.");
-            fclose(stream);
-            close(childfd);
+            fclose(stream); // also closes childfd
             continue;
         }
         if (sscanf(buf, "%s %s %s\n", method, uri, version) != 3){
             // method, uri and version still hold the previous request: do not act on it again
             reb_server_cerror(stream, "Did not understand request line.");
-            fclose(stream);
-            close(childfd);
+            fclose(stream); // also closes childfd
             continue;
         }
 
         /* only support the GET method */
         if (strcasecmp(method, "GET") && strcasecmp(method, "POST")) {
             reb_server_cerror(stream, "Only GET+POST are implemented.");
-            fclose(stream);
-            close(childfd);
+            fclose(stream); // also closes childfd
             continue;
         }
            
@@ -457,8 +454,7 @@ screenshot_finish:
 
         /* clean up */
         fflush(stream);
-        fclose(stream);
-        close(childfd);
+        fclose(stream); // This also closes childfd. Closing it a second time could hit a descriptor which another thread has opened in the meantime.
 
     }
     printf("Server shutting down...\n");
